@@ -9,6 +9,8 @@
 //   plan <latency> <evbits> <interval> <pending 0|1> <instant>                          -> <state>
 //   timeout <interval>                                                                  -> <state>
 //   resched <disarm-ok 0|1> <now> <interval>       -> <ret> <disarm calls> <pulled> <state>
+//   hresched <disarm-ok 0|1> <permille> <interval>  honest radio: now = T + permille * ( planned - T ) / 1000 where T is the
+//                time (since the anchor) of the last event that took place  -> <ret> <calls> <pulled> <state> <now>
 //   ppm <usec> <part> | add a b | sub a b | mul a n | div a b      (delta_time)         -> number
 //   <state> = channel_index event_counter time_since_last_event last_latency_|-
 // A failing assert() answers "assert" and the object is dead ("dead") until the next cfg.
@@ -57,6 +59,7 @@ struct state_if
     virtual void timeout( delta_time interval ) = 0;
     virtual bool resched( bool ok, delta_time now, delta_time interval, unsigned& calls, int& pulled ) = 0;
     virtual std::string state() const = 0;
+    virtual unsigned long long time() const = 0;
 };
 
 template < class State, bool Disarmable >
@@ -93,6 +96,7 @@ struct state_impl : state_if, ll::details::peripheral_latency_state< typename co
         pulled = static_cast< std::uint16_t >( before - base::connection_event_counter() );
         return result;
     }
+    unsigned long long time() const override { return base::time_since_last_event().usec(); }
     std::string state() const override
     {
         return std::to_string( base::current_channel_index() ) + " " + std::to_string( base::connection_event_counter() ) + " "
@@ -110,6 +114,7 @@ int main()
 {
     std::unique_ptr< state_if > st;
     bool dead = true;
+    unsigned long long last_event_time = 0;     // time since the anchor of the last event that took place
 
     return verif::line_loop( [&]( const std::vector< std::string >& w ) -> std::string {
         if ( w.empty() ) return "bad-op";
@@ -133,17 +138,35 @@ int main()
             {
                 st.reset( factory< 32 >::make( a[ 0 ] ) );
                 dead = false;
+                last_event_time = 0;
                 return "ok";
             }
             if ( dead || !st ) return "dead";
-            if ( w[ 0 ] == "reset" && a.empty() ) { st->reset(); return st->state(); }
+            if ( w[ 0 ] == "reset" && a.empty() ) { st->reset(); last_event_time = 0; return st->state(); }
             if ( w[ 0 ] == "plan" && a.size() == 5 && a[ 0 ] <= 0xffff && a[ 1 ] < 64 && a[ 3 ] < 2 && a[ 4 ] <= 0xffff )
             {
                 const ll::connection_event_events e( a[ 1 ] & 1, a[ 1 ] & 2, a[ 1 ] & 4, a[ 1 ] & 8, a[ 1 ] & 16, a[ 1 ] & 32 );
                 st->plan( a[ 0 ], e, delta_time( a[ 2 ] ), std::pair< bool, std::uint16_t >( a[ 3 ] != 0, a[ 4 ] ) );
+                last_event_time = 0;
                 return st->state();
             }
-            if ( w[ 0 ] == "timeout" && a.size() == 1 ) { st->timeout( delta_time( a[ 0 ] ) ); return st->state(); }
+            if ( w[ 0 ] == "timeout" && a.size() == 1 )
+            {
+                const unsigned long long planned = st->time();
+                st->timeout( delta_time( a[ 0 ] ) );
+                last_event_time = planned;
+                return st->state();
+            }
+            if ( w[ 0 ] == "hresched" && a.size() == 3 && a[ 0 ] < 2 && a[ 1 ] <= 1000 )
+            {
+                const unsigned long long planned = st->time();
+                const unsigned long long now = planned >= last_event_time
+                    ? last_event_time + a[ 1 ] * ( planned - last_event_time ) / 1000 : last_event_time;
+                unsigned calls = 0;
+                int pulled = 0;
+                const bool r = st->resched( a[ 0 ] != 0, delta_time( now ), delta_time( a[ 2 ] ), calls, pulled );
+                return std::string( r ? "1 " : "0 " ) + std::to_string( calls ) + " " + std::to_string( pulled ) + " " + st->state() + " " + std::to_string( now );
+            }
             if ( w[ 0 ] == "resched" && a.size() == 3 && a[ 0 ] < 2 )
             {
                 unsigned calls = 0;
@@ -154,7 +177,9 @@ int main()
         }
         catch ( const verif_assert_failure& )
         {
-            dead = true;
+            // a failed assert inside the stateless delta_time operations does not touch the object
+            if ( w[ 0 ] != "ppm" && w[ 0 ] != "add" && w[ 0 ] != "sub" && w[ 0 ] != "mul" && w[ 0 ] != "div" )
+                dead = true;
             return "assert";
         }
         return "bad-op";
